@@ -44,6 +44,53 @@ def frac_of_model_value(v, digits=40):
     raise ValueError(f"not a numeral: {v}")
 
 
+def strengthen(t, e):
+    """strengthen decided (dis)equalities/inequalities by margin e"""
+    if z3.is_not(t):
+        a = t.arg(0)
+        if z3.is_le(a):  # not (x <= y)  ->  x >= y + e
+            return a.arg(0) >= a.arg(1) + e
+        if z3.is_ge(a):
+            return a.arg(0) + e <= a.arg(1)
+        if z3.is_lt(a):
+            return a.arg(0) >= a.arg(1)
+        if z3.is_gt(a):
+            return a.arg(0) <= a.arg(1)
+        if z3.is_eq(a) and a.arg(0).sort() == z3.RealSort():
+            return z3.Or(a.arg(0) >= a.arg(1) + e, a.arg(0) + e <= a.arg(1))
+        if z3.is_and(a):
+            return z3.Or(*[strengthen(z3.Not(c), e) for c in a.children()])
+        if z3.is_or(a):
+            return z3.And(*[strengthen(z3.Not(c), e) for c in a.children()])
+        if z3.is_not(a):
+            return strengthen(a.arg(0), e)
+        return t
+    if z3.is_and(t):
+        return z3.And(*[strengthen(c, e) for c in t.children()])
+    if z3.is_or(t):
+        return z3.Or(*[strengthen(c, e) for c in t.children()])
+    if z3.is_lt(t):
+        return t.arg(0) + e <= t.arg(1)
+    if z3.is_gt(t):
+        return t.arg(0) >= t.arg(1) + e
+    if z3.is_distinct(t) and t.num_args() == 2:
+        return z3.Or(t.arg(0) >= t.arg(1) + e, t.arg(0) + e <= t.arg(1))
+    return t
+
+
+def interior_model(assertions, eps, extra=None, timeout=3000):
+    e = z3.RealVal(eps)
+    s = z3.Solver()
+    s.set("timeout", timeout)
+    for a in assertions:
+        s.add(strengthen(a, e))
+    if extra is not None:
+        s.add(strengthen(extra, e))
+    if s.check() == z3.sat:
+        return s.model()
+    return None
+
+
 class _ModelAdapter:
     """model living in another z3 context; evaluates main-context terms"""
 
@@ -313,6 +360,23 @@ class Ctx:
                     return z3.unsat, None
         except (z3.Z3Exception, OverflowError):
             pass
+        # (0b) uninterpreted applications -> fresh constants, then nlsat (pure NRA)
+        if self.opts.get("uf_abstraction", True):
+            try:
+                from .linabs import abstract_ufs
+
+                afs, napps = abstract_ufs(list(self.assertions) + [extra])
+                if napps:
+                    s1 = z3.Tactic("qfnra-nlsat").solver()
+                    s1.set("timeout", min(self.timeout_ms, self.opts.get("nlsat_ms", 8000)))
+                    s1.add(afs)
+                    r1 = s1.check()
+                    self.queries += 1
+                    if r1 == z3.unsat:
+                        self.solver_s += time.perf_counter() - t0
+                        return z3.unsat, None
+            except z3.Z3Exception:
+                pass
         som = lambda **kw: z3.With("simplify", som=True, **kw)
         short = min(self.timeout_ms, 4000)
         attempts = []
@@ -324,14 +388,19 @@ class Ctx:
                 (lambda sm=sm: z3.Then(som(), "propagate-values", som(), sm()).solver(), short),
             ]
             if seed == 0:
+                # pure polynomial queries: nlsat decides them (DESIGN probe P7)
+                attempts.append((lambda: z3.Tactic("qfnra-nlsat").solver(), self.timeout_ms))
                 attempts.append((lambda: z3.Solver(), self.timeout_ms))
         for i, (mk, tmo) in enumerate(attempts):
-            s = mk()
-            s.set("timeout", tmo)
-            for a in self.assertions:
-                s.add(a)
-            s.add(extra)
-            r = s.check()
+            try:
+                s = mk()
+                s.set("timeout", tmo)
+                for a in self.assertions:
+                    s.add(a)
+                s.add(extra)
+                r = s.check()
+            except z3.Z3Exception:
+                r = z3.unknown
             self.queries += 1
             if r != z3.unknown:
                 m = s.model() if r == z3.sat else None
@@ -388,6 +457,10 @@ class Ctx:
     def check(self, t, label, detail=None):
         """Assert pc => t.  Records a Failure with a model when refuted."""
         self.checks += 1
+        from .values import SymBool as _SB
+
+        if isinstance(t, _SB):
+            t = t.t
         verdict, model = self.valid(t)
         if verdict == "valid":
             return True
@@ -395,6 +468,17 @@ class Ctx:
             self.unknown_check += 1
             self.notes.append(f"unknown: {label}")
             return None
+        # prefer a witness in which every decided comparison (and the violation
+        # itself) holds with a visible margin: survives float replay and float32 Skia
+        if isinstance(t, z3.ExprRef):
+            for eps in ("1", "1/100"):
+                try:
+                    rm = interior_model(self.assertions, eps, extra=z3.Not(t), timeout=2000)
+                except z3.Z3Exception:
+                    rm = None
+                if rm is not None:
+                    model = rm
+                    break
         inputs = self.model_inputs(model)
         self.failures.append(
             Failure(
